@@ -61,7 +61,8 @@ static bool begin_case(const std::string& kind, const std::string& cls, const st
 static void end_case() { g_cpu.disarm(); }
 static void viol(const std::string& key, const std::string& what) { violation(key, what, g_case); }
 static void maybe_sample(const std::string& kind, const std::string& text, const std::string& extra = "") {
-    if (g_samples_left > 0 && g_rng.chance(1, 50)) {
+    static long calls = 0;
+    if (g_samples_left > 0 && (calls++ % 977) == 3) {
         g_samples_left--;
         sample(Json().str("kind", kind).str("text", text).str("note", extra).done());
     }
@@ -126,6 +127,7 @@ static void c20_roundtrip(const std::string& bytes, const std::string& cls) {
     else if (dec != bytes) viol("c20:decode:mismatch:" + lenclass, "Decode(Encode(b)) != b (got " + std::to_string(dec.size()) + " bytes, want " + std::to_string(bytes.size()) + ")");
     g_distinct.add("b64:" + std::to_string(bytes.size() % 3) + ":" + std::to_string(std::min<size_t>(bytes.size(), 64)) + ":" + std::to_string(fnv(bytes) % 64));
     count("b64_roundtrip");
+    maybe_sample("base64", hex(bytes.substr(0, 40)), "encodes to " + ref.substr(0, 60));
     end_case();
 }
 static void c20_credentials(const std::string& user, const std::string& pass, const std::string& cls) {
@@ -149,6 +151,7 @@ static void c20_credentials(const std::string& user, const std::string& pass, co
     if (t3.any || b.value() != a.value()) viol("c20:basic:reparse:" + cls, "Authorization text does not parse back");
     g_distinct.add("cred:" + cls + ":" + std::to_string((user.size() + pass.size() + 1) % 3) + ":" + std::to_string(fnv(user + ":" + pass) % 256));
     count("basic_credentials");
+    maybe_sample("credentials", hex(user) + ":" + hex(pass), a.value());
     end_case();
 }
 static void c20_invalid(const std::string& txt, const std::string& cls) {
@@ -969,6 +972,7 @@ static void c16_lookup(Rng& r) {
     if (coll.tryGetRaw("X-Never-Sent-Header")) viol("c16:lookup:spurious", "absent header found");
     g_distinct.add("lk:" + std::to_string(hs.size()) + ":" + std::to_string(first.size()) + ":" + std::to_string(fnv(msg) % 4096));
     count("lookup_messages");
+    maybe_sample("lookup-message", msg.substr(0, 300));
     end_case();
 }
 static void run_c16(long cases) {
